@@ -73,7 +73,16 @@ static void genSingleRaw(uint64_t idx, vh::Rng& g, Alpha& al, RTA& a, std::strin
 static void mutateInPlace(vh::Rng& g, const Alpha& al, Aut& A, RTA& a, CaseAlphabet& ca)
 {
 	std::set<St> ss = a.states(); std::vector<St> st(ss.begin(), ss.end()); if (st.empty()) st.push_back(0);
-	int k = static_cast<int>(g.below(5));
+	int k = static_cast<int>(g.below(6));
+	if (k == 5)
+	{	// the object is ASSIGNED another automaton (copy- or move-assignment): whatever it remembers of its earlier
+		// content (marks, memoised results keyed by the object) must go with the assignment
+		bool anyLeaf = false; for (int r : al.rank) if (r == 0) anyLeaf = true;
+		std::vector<St> nst = g.chance(1, 2) ? st : gen::numbering(g, static_cast<int>(std::min<size_t>(st.size(), 4)), static_cast<int>(g.below(3)));
+		RTA o = anyLeaf ? gen::randProductiveTA(g, al, nst, g.range(1, 6), 1) : gen::randTA(g, al, nst, g.range(1, 6));
+		Aut O = mkExpl(o, ca); if (g.chance(1, 3)) A = std::move(O); else A = O;
+		a = o; R->count("in-place:assigned-another-automaton"); return;
+	}
 	if (k == 0) { St f = st[g.below(st.size())]; A.SetStateFinal(f); a.fin.insert(f); }
 	else if (k == 1 && g.chance(1, 2)) { A.EraseFinalStates(); a.fin.clear(); St f = st[g.below(st.size())]; A.SetStateFinal(f); a.fin.insert(f); }
 	else
